@@ -12,7 +12,7 @@
      for every admitted query, fault script and arrival pattern: exactly one reply reaches
      the client's socket, no later than querytimeout + margin; expiry/cancel/capacity
      refusal is a SERVFAIL to that client only; after load stops the server is quiescent. *)
-From Sdns Require Import Common.Base Gen.C11 C11.Model C11.Proofs_Writer C11.Proofs_WG C11.Proofs_Req C11.Proofs_World C11.Proofs_Lazy C11.Stream C11.Proofs_Stream C11.Regroup C11.Proofs_Regroup C11.Proofs_Live C11.Proofs_Quiesce C11.Shutdown C11.Proofs_Shutdown C11.Proofs_Dispatch C11.Flights C11.Proofs_Flights.
+From Sdns Require Import Common.Base Gen.C11 C11.Model C11.Proofs_Writer C11.Proofs_WG C11.Proofs_Req C11.Proofs_World C11.Proofs_Lazy C11.Stream C11.Proofs_Stream C11.Regroup C11.Proofs_Regroup C11.Proofs_Live C11.Proofs_Quiesce C11.Shutdown C11.Proofs_Shutdown C11.Proofs_Dispatch C11.Flights C11.Proofs_Flights C11.Inline C11.Proofs_Inline.
 
 (* ---- translator ties ---- *)
 Theorem writer_sentinels_consistent :
@@ -357,3 +357,55 @@ Theorem no_leaked_limiter_slot : forall keys nkeys cap zcap evs,
   (forall k, flight_on s k = false) -> f_used s = 0%nat /\ f_zused s = 0%nat.
 Proof. exact no_slot_leak. Qed.
 Print Assumptions no_leaked_limiter_slot.
+
+(* ---- cache hits across the UDP transport's passes, rate limiters on (session 4; Inline.v) ---- *)
+(* "replay skips entry effects", the per-client limiter of the ratelimit middleware: whichever
+   way a hit travels - one full pass on a worker, an inline pass on the reader, an inline pass
+   that hands off and is replayed - the client's bucket afterwards is the bucket after exactly
+   ONE Allow at the query's arrival (untouched for a loopback client / a zero rate) *)
+Theorem hit_costs_its_client_one_token_by_every_route : forall cr r q cb b,
+  snd (fst (serve_query cr r false q cb b)) = client_after cr q cb.
+Proof. exact serve_query_client_once. Qed.
+Print Assumptions hit_costs_its_client_one_token_by_every_route.
+
+(* ... and the per-entry limiter of the cache: the entry's bucket afterwards is the bucket after
+   exactly ONE Allow when the client's limiter let the query through, untouched otherwise (no
+   commit-time backstop fired: see backstop_is_the_only_double_charge) *)
+Theorem hit_costs_one_token_by_every_route : forall cr r q cb b,
+  snd (serve_query cr r false q cb b) =
+  if client_admits cr q cb then snd (bk_allow r entry_unit b (iq_at q)) else b.
+Proof. exact serve_query_charges_once. Qed.
+Print Assumptions hit_costs_one_token_by_every_route.
+
+(* a query the rate policy admits (the client's Allow, then the entry's, succeed at its arrival)
+   receives exactly one reply, a refused one none - by every route, for every client shape and
+   entry size *)
+Theorem rate_admitted_hit_exactly_one_reply : forall cr r q cb b,
+  replies_of (fst (fst (fst (serve_query cr r false q cb b)))) = if rate_admits cr r q cb b then 1%Z else 0%Z.
+Proof. exact serve_query_replies. Qed.
+Print Assumptions rate_admitted_hit_exactly_one_reply.
+
+(* an inline pass of the cache that hands off wrote nothing and charged nothing, and it hands
+   off exactly the hits whose reply does not fit the client's ceiling *)
+Theorem handoff_is_unwritten_and_uncharged : forall r q b now b',
+  run_pass r false KInline q b now = (PHandoff, b') -> b' = b /\ fits q = false.
+Proof. exact handoff_unwritten_uncharged. Qed.
+Print Assumptions handoff_is_unwritten_and_uncharged.
+
+(* every history over any number of cached names and clients: each observation of the model
+   satisfies the specification oracle the driver's observations are judged by (never two;
+   admitted => one; refused => none; one question, one token per limiter it reaches) *)
+Theorem inline_histories_meet_the_spec : forall cr r qs cbs bs, (0 <= cr)%Z -> (0 <= r)%Z ->
+  forallb iobs_spec (run_inline cr r cbs bs qs) = true.
+Proof. exact run_inline_spec. Qed.
+Print Assumptions inline_histories_meet_the_spec.
+
+(* the hypothesis is necessary (the source accepts it as "the rare case"): a commit-time
+   backstop after the charge makes an inline query pay again on the replay; with one token in
+   the bucket the admitted query is then dropped *)
+Theorem backstop_is_the_only_double_charge :
+  let q := mk_iq 5000 0 0 true true 1232 false 100 in
+  bk_level 1 entry_unit (bk_full 1 entry_unit) (iq_at q) = entry_unit /\
+  fst (fst (serve_query 0 1 true q (bk_full 0 client_unit) (bk_full 1 entry_unit))) = (PDropped, true).
+Proof. exact backstop_inline_loses_admitted_query. Qed.
+Print Assumptions backstop_is_the_only_double_charge.
